@@ -32,7 +32,7 @@ try:
     res["tests"] = (p.stdout.strip().splitlines() or [p.stderr[-200:]])[-1]
     res["demo_changed"] = run_demo()
     for c in checks:
-        p = subprocess.run([os.path.join(V, "run"), c, "--tier", "quick"], capture_output=True, text=True, env={**os.environ, "VERIF_REPO": wt})
+        p = subprocess.run([os.path.join(V, "run"), c, "--tier", "quick"], capture_output=True, text=True, env={**os.environ, "VERIF_REPO": wt, "VERIF_EVIDENCE_DIR": "/var/tmp/verif-evidence-changed-tree"})
         sigs = sorted(set(re.findall(r"sig=(.*)", p.stdout)))
         res["check_" + c] = {"exit": p.returncode, "violations": len([l for l in p.stdout.splitlines() if l.startswith("VIOLATION")]), "sigs": sigs[:8]}
 finally:
